@@ -582,7 +582,7 @@ class Tr:
                 env2 = self.wr(env2)
                 r = self.fresh("r")
                 spec = self.gen.specs[self.cls][target]
-                call = f"{target} h fuel t " + " ".join(terms)
+                call = f"{target} h t " + " ".join(terms)
                 if spec["ret"] is None:
                     return ([f"{ind2}match {call} with", f"{ind2}| none => none", f"{ind2}| some t =>"] +
                             k("()", "unit", env2, ind2 + "  "))
@@ -820,6 +820,8 @@ class Tr:
     def join(self, s, rest, env, ind):
         """`if(c) A else B` followed by `rest`, both branches falling through: `rest` becomes a function of its own (its
         parameters: the table, the parameters of the C++ function, the locals in scope), called at the end of both branches"""
+        if getattr(self, "in_loop", 0):
+            self.refuse("an `if` whose branches both fall through, inside a loop")
         self.njoins = getattr(self, "njoins", 0) + 1
         kname = f"{self.spec['lean']}_k{self.njoins}"
         params = [p for p, _ in self.spec["params"]]
@@ -857,12 +859,12 @@ class Tr:
         sig = "".join(f" ({p} : {LEAN_TY[ty]})" for p, ty in self.spec["params"])
         sig += "".join(f" (v_{x} : {LEAN_TY[ltys[x]]})" for x in passed)
         body = self.run(rest, kenv, "  ")
-        self.aux.append(f"def {kname} (h : Nat → Nat) (fuel : Nat) (t : PTable){sig} : Option {self.ret_ty()} :=\n" + "\n".join(body) + "\n")
+        self.aux.append(f"def {kname} (h : Nat → Nat) (t : PTable){sig} : Option {self.ret_ty()} :=\n" + "\n".join(body) + "\n")
         out = []
         for l in lines:
             if isinstance(l, list) and l[0] == "JOIN" and any(l is m for m in marks):
                 args = [self.coerce(l[1][x][0], l[1][x][1], ltys[x]) for x in passed]
-                out.append(f"{l[2]}{kname} h fuel t " + " ".join(params + args))
+                out.append(f"{l[2]}{kname} h t " + " ".join(params + args))
             else:
                 out.append(l)
         return out
@@ -914,11 +916,13 @@ class Tr:
 
         def kelse(env2, ind2):
             return self.run(rest, env2, ind2)
-        saved_n = self.n
+        self.in_loop = getattr(self, "in_loop", 0) + 1
         lines = self.cond(c, lenv, "  ", kthen, kelse)
+        self.in_loop -= 1
         self.aux.append(f"def {lname} (h : Nat → Nat) (fuel : Nat) (t : PTable){sig} : Option {self.ret_ty()} :=\n" + "\n".join(lines) + "\n")
         args = [self.coerce(env[x][0], env[x][1], ltys[x]) for x in locs]
-        return [f"{ind}{lname} h fuel t " + " ".join(params + args)]
+        # the fuel of a loop is the size of the table whose chain / list it walks (the model's bound; `ptr_structure`: it suffices)
+        return [f"{ind}{lname} h t.size t " + " ".join(params + args)]
 
 
 # ---- swap: two objects, two heaps ------------------------------------------------------------------------------------------
@@ -1155,7 +1159,7 @@ class Gen:
             lines = tr.run(stmts, env, "  ")
             sig = "".join(f" ({pn} : {LEAN_TY[ty]})" for pn, ty in spec["params"])
             parts += tr.aux
-            parts.append(f"def {spec['lean']} (h : Nat → Nat) (fuel : Nat) (t : PTable){sig} : Option {tr.ret_ty()} :=\n" + "\n".join(lines) + "\n")
+            parts.append(f"def {spec['lean']} (h : Nat → Nat) (t : PTable){sig} : Option {tr.ret_ty()} :=\n" + "\n".join(lines) + "\n")
             spec["done"] = True
             summary.append(f"{fn}:{len(stmts)}")
         # swap
